@@ -230,7 +230,7 @@ def _configs(tier, salts):
                                 out.append((cfg, {"depth": depth, "letters": ["x0.3", "x3"]}))
         # the same geometry translated far from the origin (the projection routine and the solver are translation invariant, so
         # every clause must hold there too): subsets of two and three sets, 'pull' objective, bounds on/off
-        if salt == 0 or tier == "thorough":
+        if salt == 0 or (tier == "thorough" and salt == 1):
             from .C15 import translate
             for n in ((2,) if tier == "quick" else (2, 3)):
                 off = np.array([300.0, 400.0, -200.0][:n])
@@ -257,7 +257,7 @@ def _configs(tier, salts):
                             out.append((cfg, {"depth": 0}))
         # every evaluation site that exists with projections: options that select the other sites (points added when a soft
         # restart increases npt, extra regression steps of both kinds, random initial directions, batch initialisation)
-        if salt == 0 or tier == "thorough":
+        if salt == 0 or (tier == "thorough" and salt == 1):
             n = 2
             specs = set_bank(n, salt)
             for sub in [c for L in (2, 3) for c in itertools.combinations(range(len(specs)), L)][::3]:
@@ -278,13 +278,13 @@ def _configs(tier, salts):
                             out.append((cfg, {"depth": 0}))
         # geometries whose trust-region step can increase the model, with and without hard restarts from a fresh evaluation
         # of the best point (the restart point is evaluated as it is stored)
-        if salt == 0 or tier == "thorough":
+        if salt == 0 or (tier == "thorough" and salt == 1):
             for cfg, plan in cfgs.tr_increase_cfgs(salt, restarts=("none", "hard_new", "hard_old")):
                 if not cfg.get("sets"):
                     continue
                 out.append((dict(cfg, record_dykstra=True, tag_start="trinc", tag_restart=cfg["tag_mode"]), plan))
         # projection modes of the broad option bank (user Dykstra parameters, restarts, regulariser + projections)
-        if salt == 0 or tier == "thorough":
+        if salt == 0 or (tier == "thorough" and salt == 1):
             for name, cfg in cfgs.broad_cfgs(salt=salt, require=("sets",), budgets=(12, 35), reg_budgets=(8,)):
                 cfg = dict(cfg, record_dykstra=True, tag_start="broad", tag_restart="broad")
                 out.append((cfg, {"depth": 0}))
